@@ -72,7 +72,7 @@ def obj_binary(name):
     if name == "fail_hi":  # failed evaluations reported as +inf (the worst value when minimising)
         return lambda x: np.where(onemax(x) >= 6, np.inf, onemax(x))
     if name == "fail_lo":  # failed evaluations reported as -inf (the worst value when maximising): many of them at the start
-        return lambda x: np.where(onemax(x) <= 0.55 * np.asarray(x).shape[1], -np.inf, onemax(x))
+        return lambda x: np.where(np.asarray(x, dtype=np.float64)[:, 0] + np.asarray(x, dtype=np.float64)[:, 1] >= 2, -np.inf, onemax(x))
     if name == "inf":     # the best values are infinite (1/error with error 0, log(0)): +inf above, -inf below
         return lambda x: np.where(onemax(x) >= 7, np.inf, np.where(onemax(x) <= 2, -np.inf, onemax(x)))
     raise KeyError(name)
@@ -100,7 +100,7 @@ def obj_float(name):
     if name == "fail_hi":
         return lambda x: np.where(sphere(x) >= 6.0, np.inf, sphere(x))
     if name == "fail_lo":
-        return lambda x: np.where(sphere(x) >= 4.0, -np.inf, -sphere(x))
+        return lambda x: np.where(np.asarray(x, dtype=np.float64)[:, 0] > 1.5, -np.inf, -sphere(x))
     if name == "inf":
         return lambda x: np.where(sphere(x) >= 9.0, np.inf, np.where(sphere(x) <= 1.5, -np.inf, sphere(x)))
     if name == "view":    # returns a VIEW of its argument (the first coordinate)
